@@ -715,17 +715,40 @@ func derivedFromGlobal(v ssa.Value, name string, d int) bool {
 	return false
 }
 
-// loopHeaderOf: the closest block with an If that dominates b and is reachable from b (loop header).
+// loopHeaderOf: header of the innermost natural loop containing b (nil if none).
 func loopHeaderOf(b *ssa.BasicBlock) *ssa.BasicBlock {
-	for d := b; d != nil; d = d.Idom() {
-		if _, ok := lastInstr(d).(*ssa.If); !ok || d == b {
-			continue
-		}
-		if reachableFrom(b, nil)[d] {
-			return d
+	f := b.Parent()
+	var best *ssa.BasicBlock
+	bestSize := 0
+	for _, h := range f.Blocks {
+		for _, p := range h.Preds {
+			if !h.Dominates(p) {
+				continue
+			}
+			// natural loop of the back edge p -> h
+			body := map[*ssa.BasicBlock]bool{h: true}
+			var stack []*ssa.BasicBlock
+			if !body[p] {
+				body[p] = true
+				stack = append(stack, p)
+			}
+			for len(stack) > 0 {
+				x := stack[len(stack)-1]
+				stack = stack[:len(stack)-1]
+				for _, q := range x.Preds {
+					if !body[q] {
+						body[q] = true
+						stack = append(stack, q)
+					}
+				}
+			}
+			if body[b] && (best == nil || len(body) < bestSize) {
+				best = h
+				bestSize = len(body)
+			}
 		}
 	}
-	return nil
+	return best
 }
 
 // orderLoopCoverage: a = phi(init, a+1) style induction; pairs (a, a+1) for a in [0, n-1).
